@@ -58,8 +58,9 @@ Proof. exact @padded_read_safe. Qed.
 Print Assumptions C17_padded_read_safe.
 
 (* regional_maximum, ties allowed: for every image, mask and structure (any shape whose half
-   shape fits into the image; centre excluded, symmetric or not) the shifted-slice model marks
-   exactly the pixels whose structure neighbours all lie inside image and mask and are not larger. *)
+   shape fits into the image; symmetric or not) the shifted-slice model marks exactly the pixels
+   that lie inside the mask and whose structure neighbours all lie inside image and mask and are
+   not larger. *)
 Theorem C17_regional_maximum_ties_spec : forall image mask (st : list (list bool)),
   let h := length image in
   let w := length (hd [] image) in
